@@ -143,6 +143,15 @@ def _gen_frame(rng, grid):
     if kind == "specks":
         shape = grid["shape"] if isinstance(grid["shape"], list) else [grid["shape"]]
         f["specks"] = [[rng.randrange(n) for n in shape] for _ in range(rng.choice([1, 1, 2, 5]))]
+        # two- and three-cell bars along one axis: on anisotropic grids their equal-volume
+        # sphere can be smaller than half the spacing, i.e. cover no cell centre at all
+        for _ in range(rng.choice([0, 1, 1, 2])):
+            c = [rng.randrange(n) for n in shape]
+            ax = rng.randrange(len(shape))
+            for k in range(rng.choice([2, 2, 3])):
+                cc = list(c)
+                cc[ax] = (c[ax] + k) % shape[ax]
+                f["specks"].append(cc)
     if kind == "offaxis":
         # objects away from the symmetry axis / origin only
         shape = grid["shape"] if isinstance(grid["shape"], list) else [grid["shape"]]
